@@ -393,6 +393,11 @@ class Interp:
                     sub = Frame(fr.func, {}, fr.module, parent=fr)
                     self.assign(g.target, f0(k), sub)
                     return self.eval(node.elt, sub)
+                # the element expression is probed at an arbitrary index of a NON-EMPTY list only (assuming an index in range would
+                # otherwise silently exclude the empty list from everything that follows)
+                nz = simp(to_z3(n) > 0)
+                if nz is False or (nz is not True and not self.ctx.branch(nz)):
+                    return SymList(n, at, 'comprehension')
                 k0 = self.ctx.fresh_int('k!comp')
                 self.ctx.assume(z3.And(0 <= k0, k0 < to_z3(n)))
                 depth = len(self.ctx.worklist) if hasattr(self.ctx, 'worklist') else None
